@@ -23,7 +23,7 @@ StateOf(g) ==
    wrk |-> RegInit(g.wrk), bcn |-> RegInit(g.bcn),
    str |-> [p |-> [feeNum |-> g.str.feeNum, feeDen |-> g.str.feeDen], s |-> <<>>],
    grants |-> <<>>, fgrants |-> <<>>,
-   aux |-> [props |-> <<>>, nextProp |-> 1, ever |-> [wrk |-> <<>>, bcn |-> <<>>], sh |-> <<>>, ghost |-> {}, ghostp |-> {}, exsig |-> {}]]
+   aux |-> [props |-> <<>>, nextProp |-> 1, ever |-> [wrk |-> <<>>, bcn |-> <<>>], sh |-> <<>>, ghost |-> {}, ghostp |-> {}, exsig |-> {}, approved |-> {}]]
 
 
 EndEv == [a |-> "EndBlock"]
